@@ -84,6 +84,24 @@ Definition op_prefix (ts : list wtok) : list wtok :=
                                  | x => prefix_code x end)) (seq 0 (length bs))
           else [])).
 
+(* 31 PREFIX_AT: the verdicts at selected cut positions (boundary-size messages) *)
+Definition op_prefix_at (ts : list wtok) : list wtok :=
+  run_rd (rlet m := r_msg in rlet f := r_opt r_filter in rlet cuts := r_list r_n in rret (m, f, cuts)) ts
+    (fun '(m, f, cuts) =>
+    w_bool (wf_message m) ++
+    if message_bytes_overflows m then [WN 1]
+    else
+      let bs := message_bytes m in
+      let pf := option_map process_filter f in
+      let ks := map N.to_nat (filter (fun k => k <? len bs) cuts) in
+      WN 0 :: WN (len bs) ::
+      map (fun k => WN (prefix_code (dlt_message (firstn k bs) pf (has_storage m)))) ks
+      ++ (if has_storage m
+          then map (fun k => WN (match dlt_consume_msg (firstn k bs) with
+                                 | POk None _ => 16777220
+                                 | x => prefix_code x end)) ks
+          else [])).
+
 (* 24 JUNK: junk ++ message ++ rest versus message ++ rest, with storage headers (C06) *)
 Definition op_junk (ts : list wtok) : list wtok :=
   run_rd (rlet j := r_bytes in rlet m := r_msg in rlet rest := r_bytes in rlet f := r_opt r_filter in rret (j, m, rest, f)) ts
@@ -296,6 +314,7 @@ Definition run_case (op : N) (ts : list wtok) : list wtok :=
   | 27 => run_rd r_filter ts (fun f => w_processed (process_filter f))
   | 28 => op_stable ts
   | 30 => op_filt_hand ts
+  | 31 => op_prefix_at ts
   | 29 => op_streamj ts
   | 32 => op_stats ts
   | 40 => op_read ts
